@@ -227,7 +227,7 @@ class Schedules(Space):
             for first in (0, 1):
                 for k in range(self.npoints[(pi, first, "all")]):
                     yield (pi, "p1", first, k, 0)
-            if self.tier == "thorough":
+            if True:  # two preemptions at flowmark-function granularity (both tiers)
                 for first in (0, 1):
                     na, nb = self.npoints[(pi, first, "fm")], self.npoints[(pi, 1 - first, "fm")]
                     for k1 in range(na):
